@@ -275,15 +275,18 @@ class World:
         self.transitions += 1
         # map new containers to assignments
         if exc is None:
-            by_ops = {id(a.ops): a for a in asg}
+            # an assignment and its container / result are matched by WHICH operators they hold (an operator can be
+            # in one assignment per tick only), not by the identity of the list object that carries them
+            opkey = lambda ops: tuple(id(o) for o in ops)
+            by_ops = {opkey(a.ops): a for a in asg}
             for p in ex.pools:
                 for c in p.active_containers + p.suspending_containers:
                     if c.container_id not in pre_ids and c.container_id not in self.key_of_cid:
-                        a = by_ops.get(id(c.operators))
+                        a = by_ops.get(opkey(c.operators))
                         self._new_container(c.container_id, a, c)
             for r in results:
                 if r.container_id not in self.key_of_cid and r.container_id not in pre_ids:
-                    a = by_ops.get(id(r.ops))
+                    a = by_ops.get(opkey(r.ops))
                     self._new_container(r.container_id, a, None)
         self._compare(sus, asg, results, exc, pre)
         if exc is not None:
@@ -385,8 +388,8 @@ class World:
         for s in sus:
             self.stats["susp_accepted"] += 1
         self.stats["accepted"] += len(asg)
-        got = sorted(((self.key_of_cid.get(r.container_id) or r.container_id), "oom" if r.failed() else "ok") for r in results)
-        want = sorted(pred)
+        got = sorted((((self.key_of_cid.get(r.container_id) or r.container_id), "oom" if r.failed() else "ok") for r in results), key=str)
+        want = sorted(pred, key=str)
         for info in m.pool_kill_info:
             self.stats["pool_kills"] += 1
             if not info["admissible"]:
@@ -445,8 +448,8 @@ class World:
                 self.flag(tags, "free-figures-mismatch", f"tick {self.tick} pool {pid}: implementation cpu {p.avail_cpu_pool} ram {p.avail_ram_pool}, "
                           f"model cpu {float(mp.free_cpu)} ram {float(mp.free_ram)}")
                 self.model_dead = True
-            live_impl = sorted(self.key_of_cid.get(c.container_id, c.container_id) for c in p.active_containers + p.suspending_containers)
-            live_model = sorted(rc.key for rc in mp.live)
+            live_impl = sorted((self.key_of_cid.get(c.container_id, c.container_id) for c in p.active_containers + p.suspending_containers), key=str)
+            live_model = sorted((rc.key for rc in mp.live), key=str)
             if live_impl != live_model:
                 tags = {"C03", "C09"}
                 if any(rc.status == "susp" for rc in mp.live) or len(p.suspending_containers):
